@@ -1,2 +1,3 @@
 pub mod sbf;
 pub mod uni_eq;
+pub mod ros_eq;
